@@ -481,15 +481,19 @@ def g_esds(c):
     form = c.pick('size_form', ['padded', 'short'])
     # AudioSpecificConfig: AAC-LC (2) / HE-AAC (5, explicit SBR signalling), frequency index, channel configuration
     aot = c.pick('aot', [2, 5])
-    fi = c.pick('freq_index', [3, 4, 0, 11])
+    # index 15 is the escape form: the frequency follows as 24 explicit bits, whether or not the table has an entry for it
+    fi = c.pick('freq_index', [3, 4, 0, 11, (15, 48000), (15, 23000), (15, 7350)])
     ch = c.pick('channels', [2, 1, 6])
+    fbits = [(fi, 4)] if not isinstance(fi, tuple) else [(15, 4), (fi[1], 24)]
     if aot == 2:
-        asc = bytes([(aot << 3) | (fi >> 1), ((fi & 1) << 7) | (ch << 3)])
+        fields = [(aot, 5)] + fbits + [(ch, 4), (0, 3)]
     else:
         # aot=5: freq idx, channels, extension freq idx, underlying aot=2, GASpecificConfig 3 bits 0
-        efi = 3
-        bits = (5 << 27) | (fi << 23) | (ch << 19) | (efi << 15) | (2 << 10)
-        asc = struct.pack('>I', bits)
+        fields = [(5, 5)] + fbits + [(ch, 4), (3, 4), (2, 5), (0, 3)]
+    nb = sum(wd for _, wd in fields)
+    if nb % 8:
+        fields.append((0, 8 - nb % 8))
+    asc = bits(*fields)
     # backward compatible SBR signalling appends a sync extension (0x2b7, aot 5, sbrPresentFlag, frequency index)
     asc += c.pick('asc_tail', [b'', b'\x56\xe5\x00', b'\x56\xe5\xa5\x48\x80'])
     dsi = descr(5, asc, form)
